@@ -6,6 +6,7 @@ Q2 = M^H Q1 M, and `Pi^H (Q2 - Q1) Pi = 0` (lossless) / `<= 0` (sigma_E >= 0) is
 subspace. By induction that is "for every field and any number of steps".
 """
 import itertools
+import json
 
 import numpy as np
 
@@ -97,6 +98,30 @@ def cases(tier, seed):
                     sig = sig_q[(k // 4) % 3]
                     k += 1
                     out.append(dict(shape=shape, faces=fs, eps=eps, mu=mu, sig_e=sig, grid=g, conf=(k % 97 == 0)))
+        # full material x conductivity product on the axis-exhaustive face sets (each axis over all 11 pairs, the others
+        # over {none, periodic, pec}) for every shape and grid
+        face_sets = set()
+        for ax in range(3):
+            for pair in AXIS_ALPHA:
+                for o1 in OTHER_Q:
+                    for o2 in OTHER_Q:
+                        f = [None, None, None]
+                        f[ax] = pair
+                        oth = [a for a in range(3) if a != ax]
+                        f[oth[0]] = (o1, o1)
+                        f[oth[1]] = (o2, o2)
+                        face_sets.add(tuple(f))
+        seen = {json.dumps([c["shape"], c["faces"], c["eps"], c["mu"], c["sig_e"], c["grid"]], sort_keys=True) for c in out}
+        for fs in sorted(face_sets, key=_faces_key):
+            for shape in shapes + [(3, 2, 4)]:
+                for g in grids:
+                    for eps, mu in tiers:
+                        for sig in sig_q:
+                            c = dict(shape=shape, faces=fs, eps=eps, mu=mu, sig_e=sig, grid=g, conf=False)
+                            key = json.dumps([c["shape"], c["faces"], c["eps"], c["mu"], c["sig_e"], c["grid"]], sort_keys=True)
+                            if key not in seen:
+                                seen.add(key)
+                                out.append(c)
     for c in out:
         c["seed"] = seed
     return out
@@ -104,8 +129,8 @@ def cases(tier, seed):
 
 def bounds(tier, seed):
     return {
-        "shapes": [(3, 3, 3), (2, 3, 4)] + ([(4, 2, 3)] if tier == "thorough" else []),
-        "faces": "quick: each axis ranges over all 11 admissible (min,max) pairs while the other two range over {none,periodic,pec}; thorough: full 11^3 product",
+        "shapes": [(3, 3, 3), (2, 3, 4)] + ([(4, 2, 3), (3, 2, 4)] if tier == "thorough" else []),
+        "faces": "quick: each axis ranges over all 11 admissible (min,max) pairs while the other two range over {none,periodic,pec}; thorough: full 11^3 product (materials rotating) + the quick face sets with the full materials x sigma x grid x shape product",
         "materials": "eps/mu tiers iso|diag with patterns vac|distinct|seed; sigma_E none|iso(with zeros)|diag",
         "grids": "uniform, rect_uniform, rect_distinct, rect_seed",
         "basis": "all 2*3*N basis states of (E,H) per configuration (and i*e_j for Bloch), affinity on all pairs of a 12-state block",
